@@ -1,10 +1,14 @@
 import PersimVerif.Drv.Util
 import PersimVerif.Drv.PLArith
-/-! driver commands: PL — dispatcher.  C09's commands (`pla.*`) live in `Drv/PLArith.lean`; the C10
-    handler (norms) is added here by the integrator on merge. -/
+import PersimVerif.Drv.PNorm
+/-! driver commands: PL — dispatcher.  C09's commands (`pla.*`) live in `Drv/PLArith.lean`, C10's norm
+    operations (`pl.pnorm*`, `pl.sup*`, …) in `Drv/PNorm.lean`. -/
 namespace PersimVerif.Drv.PL
 open PersimVerif Val PersimVerif.Drv
 
-def handle : Handler := fun op args => PLArith.handle op args
+def handle : Handler := fun op args =>
+  match PLArith.handle op args with
+  | some v => some v
+  | none => PNorm.handle op args
 
 end PersimVerif.Drv.PL
